@@ -974,7 +974,6 @@ func c08(c *Ctx) {
 	})
 }
 
-
 // percentileValueKind classifies the value handed to Percentiles.Set by what it is computed from, looking
 // through the phis of the percentile loop and ignoring the initial values taken from Timer.Min / Timer.Max:
 // "count" (a converted integer), "mean" (a quotient), "boundary" (an element of the values), "sum" /
